@@ -91,14 +91,44 @@ func driveSyncMap(plan []M, out *Out, _ []string) {
 				return e
 			},
 			final: func() []M {
+				// sequential epilogue after quiescence: read everything back, store a fresh value under every key, enumerate (which
+				// promotes the dirty map), read again, store again, enumerate, read again -- latent damage to the internal state
+				// (an entry missing from the dirty map, a stale read map) turns into a lost or resurrected value here
 				evs := []M{}
-				for _, k := range keys {
-					v, ok := m.Load(mapKey(k))
-					evs = append(evs, M{"ev": "final", "op": "Load", "k": k, "rv": mapRet(v, ok, false), "rok": ok})
+				loads := func() {
+					for _, k := range keys {
+						v, ok := m.Load(mapKey(k))
+						evs = append(evs, M{"ev": "final", "op": "Load", "k": k, "v": 0, "rv": mapRet(v, ok, false), "rok": ok})
+					}
 				}
-				rep := []int{}
-				m.Range(func(k, v int) bool { rep = append(rep, k+1, mapValID(v)); return true })
-				return append(evs, M{"ev": "final", "op": "Range", "k": 0, "rv": 0, "rok": false, "rep": rep})
+				rng := func() {
+					rep := []int{}
+					m.Range(func(k, v int) bool { rep = append(rep, k+1, mapValID(v)); return true })
+					evs = append(evs, M{"ev": "final", "op": "Range", "k": 0, "v": 0, "rv": 0, "rok": false, "rep": rep})
+				}
+				stores := func(base int) {
+					for _, k := range keys {
+						m.Store(mapKey(k), mapVal(base+k))
+						evs = append(evs, M{"ev": "final", "op": "Store", "k": k, "v": base + k, "rv": 0, "rok": false})
+					}
+				}
+				if num(p, "epi") == 1 {
+					// stores first: a store that lands only in a read-map entry whose key is missing from the dirty map is
+					// lost by the next promotion -- and a Load miss would already promote
+					stores(900)
+					loads()
+					rng()
+					loads()
+					return evs
+				}
+				loads()
+				stores(900)
+				rng()
+				loads()
+				stores(950) // and once more after the promotion
+				rng()
+				loads()
+				return evs
 			},
 		}
 	})
@@ -187,6 +217,9 @@ func driveWorld(plan []M, out *Out, mk func(p M) *world) {
 					h = append(h, M{"ev": "ret", "t": e["t"], "rv": e["rv"], "rok": e["rok"], "rep": e["rep"]})
 				case e["ev"] == "final":
 					x := M{"ev": "inv", "t": 9, "op": e["op"], "k": e["k"], "v": 0}
+					if fv, ok := e["v"]; ok {
+						x["v"] = fv
+					}
 					if sv, ok := e["s"]; ok {
 						x["s"] = sv
 					}
